@@ -53,3 +53,89 @@ func VerifC14History() {
 	verifAssert(vBytesEq(sink.got, want), "final==concat")
 	verifObserveBytes("got", sink.got)
 }
+
+// vLongValue: n bytes, the first, the middle and the last symbolic, the rest a concrete pattern.
+func vLongValue(n int, tag string) []byte {
+	b := make([]byte, n)
+	for i := range b {
+		b[i] = byte(i*7 + 1)
+	}
+	if n > 0 {
+		b[0] = verifU8(tag + ".first")
+		b[n/2] = verifU8(tag + ".mid")
+		b[n-1] = verifU8(tag + ".last")
+	}
+	return b
+}
+
+// VerifC14LongValues: path equivalence (WriteColumn + Flush == EncodeColumn) for string-like
+// columns holding values whose length sits on either side of a power of two - where length
+// varints grow and where an implementation may switch between copying and chaining - next to
+// short ones, in each order.
+func VerifC14LongValues() {
+	lens := [...]int{127, 128, 255, 256, 1023, 1024, 1025, 4095, 4096, 16383, 16384}
+	long := lens[verifChoice("len", len(lens))]
+	var rows [][]byte
+	switch verifChoice("order", 4) {
+	case 0:
+		rows = [][]byte{vLongValue(long, "a"), vLongValue(1, "b")}
+	case 1:
+		rows = [][]byte{vLongValue(2, "a"), vLongValue(long, "b")}
+	case 2:
+		rows = [][]byte{vLongValue(long, "a"), vLongValue(long+1, "b"), vLongValue(0, "c")}
+	case 3:
+		rows = [][]byte{vLongValue(long, "a")}
+	}
+	var col ColInput
+	switch verifChoice("column", 5) {
+	case 0:
+		c := new(ColStr)
+		for _, r := range rows {
+			c.AppendBytes(r)
+		}
+		col = c
+	case 1:
+		c := new(ColBytes)
+		for _, r := range rows {
+			c.Append(r)
+		}
+		col = c
+	case 2:
+		c := new(ColStr).Array()
+		var all []string
+		for _, r := range rows {
+			all = append(all, string(r))
+		}
+		c.Append(all)
+		col = c
+	case 3:
+		c := new(ColStr).Nullable()
+		for _, r := range rows {
+			c.Append(NewNullable(string(r)))
+		}
+		col = c
+	case 4:
+		c := new(ColStr).LowCardinality()
+		for _, r := range rows {
+			c.Append(string(r))
+		}
+		c.Prepare()
+		col = c
+	}
+	var enc Buffer
+	if s, ok := col.(StateEncoder); ok {
+		s.EncodeState(&enc)
+	}
+	col.EncodeColumn(&enc)
+	sink := &vSink{failAfter: -1}
+	w := NewWriter(sink, new(Buffer))
+	if s, ok := col.(StateEncoder); ok {
+		w.ChainBuffer(func(b *Buffer) { s.EncodeState(b) })
+	}
+	col.WriteColumn(w)
+	_, err := w.Flush()
+	verifAssert(err == nil, "long-flush-ok")
+	verifAssert(len(sink.got) == len(enc.Buf), "long-vectored-length==encoded-length")
+	verifAssert(vBytesEq(sink.got, enc.Buf), "long-vectored==encoded")
+	verifObserveU64("len", uint64(len(sink.got)))
+}
